@@ -49,6 +49,9 @@ def run(ctx):
     ctx.guard(keywords, ctx, g)
     ctx.guard(lists, ctx, g)
     ctx.guard(node_ctors, ctx, g)
+    from . import listnodes
+    ctx.guard(listnodes.check, ctx, 'C07-NONE')
+    ctx.guard(reclass, ctx, g)
     L = g.lalr()
     total = sum(len(r.instances) for r in ctx.rules)
     bad = sum(len(r.violations) for r in ctx.rules)
@@ -343,6 +346,48 @@ def lists(ctx, g):
             r.check(ok, '%s: element p[%d] is %s' % (p.fn.name, j, want), st, construct=CLS + '.' + p.fn.name, key='list-order',
                     msg='%s (%s): the element p[%d] stands %s the recursive symbol p[%d], so it must be %s; `%s` reverses the order of the '
                         'elements in the tree' % (p.fn.name, p, j, 'before' if j < k else 'after', k, want, how))
+
+
+def reclass(ctx, g):
+    '''`<KEYWORD> [var =] ns::name(...)`: the implicit invocation is re-classed according to the leading keyword; the plain and the
+    assignment form of one keyword agree, and different keywords give different classes (two different statements never
+    collapse into one tree)'''
+    r = ctx.rule('C07-RECLASS', 'keyword-qualified invocations get the node class of their keyword, the same in statement and assignment form',
+                 floor=12, oracle='sibling productions of one keyword; injectivity across keywords')
+    groups = {}
+    for pr in g.productions:
+        if 'implicit_invocation' not in pr.syms or not pr.syms or not g.is_terminal(pr.syms[0]):
+            continue
+        fn = pr.fn
+        pvar = fn.args.args[1].arg if len(fn.args.args) > 1 else 'p'
+        i = pr.syms.index('implicit_invocation') + 1
+        classes = []
+        for node, env in pm.find('%s[%d].__class__ = _C' % (pvar, i), fn):
+            classes.append(src(env['_C']))
+        for node in ast.walk(fn):        # constructor form: X(namespace=p[i].namespace, ...) is not used by the repo; cast helpers are
+            if isinstance(node, ast.Call) and isinstance(node.func, ast.Name) and node.func.id.endswith('InvocationNode') and \
+                    any(src(x) == '%s[%d]' % (pvar, i) for a in list(node.args) + [k.value for k in node.keywords] for x in ast.walk(a)):
+                classes.append(node.func.id)
+        Q = 'bridgepoint.oal:OALParser.' + fn.name
+        r.check(len(set(classes)) == 1, '%s gives the invocation one node class (%s)' % (fn.name, ', '.join(sorted(set(classes)))), fn, construct=Q,
+                key='reclass ' + fn.name, msg='%s (`%s : %s`) does not give the implicit invocation exactly one node class (%s): it stays a '
+                                              'generic ImplicitInvocationNode' % (fn.name, pr.head, ' '.join(pr.syms), sorted(set(classes))))
+        if classes:
+            groups.setdefault(pr.syms[0], []).append((fn, classes[0]))
+    for kw, members in sorted(groups.items()):
+        cl = sorted(set(c for _, c in members))
+        for fn, c in members:
+            others = [c2 for f2, c2 in members if f2 is not fn]
+            r.check(len(cl) == 1, '%s forms agree on %s' % (kw, cl[0]), fn, construct='bridgepoint.oal:OALParser.' + fn.name, key='agree ' + fn.name,
+                    msg='the %s forms disagree: %s builds %s but %s: the statement and the assignment form of the same invocation parse to '
+                        'different kinds of node' % (kw, fn.name, c, ', '.join('%s builds %s' % (f2.name, c2) for f2, c2 in members if f2 is not fn)))
+    by_class = {}
+    for kw, members in groups.items():
+        for fn, c in members:
+            by_class.setdefault(c, set()).add(kw)
+    for c, kws in sorted(by_class.items()):
+        r.check(len(kws) == 1, '%s is built for %s only' % (c, '/'.join(sorted(kws))), g.productions[0].fn, construct='bridgepoint.oal:OALParser',
+                key='injective ' + c, msg='%s is built for the keywords %s: two different statements parse to the same tree' % (c, sorted(kws)))
 
 
 def node_ctors(ctx, g):
